@@ -669,10 +669,11 @@ static char *find_file(char *pattern) {
   return path;
 }
 
-// Returns true if a given file exists.
+// Returns true if a given file exists. A directory of that name is
+// not a file: the include search must go on to the next directory.
 bool file_exists(char *path) {
   struct stat st;
-  return !stat(path, &st);
+  return !stat(path, &st) && !S_ISDIR(st.st_mode);
 }
 
 static char *find_libpath(void) {
